@@ -218,6 +218,33 @@ def rename_session(rng):
     return st
 
 
+def through_file_sessions():
+    """Every kind of (partial) access to a file, directly followed by every verb on a path *through* that file."""
+    out = []
+    s = 1
+    login = [["connect", s], ["send", s, "USER u1"], ["send", s, "PASS pw1"]]
+    touches = {
+        "none": [],
+        "rest-stor": gen.transfer(s, "STOR", "f", data=[9], rest="1"),
+        "rest-stor-end": gen.transfer(s, "STOR", "f", data=[9], rest="5"),
+        "rest-appe": gen.transfer(s, "APPE", "f", data=[9], rest="2"),
+        "rest-retr": gen.transfer(s, "RETR", "f", rest="3"),
+        "retr": gen.transfer(s, "RETR", "f"),
+        "stor": gen.transfer(s, "STOR", "f", data=[1, 2]),
+        "appe": gen.transfer(s, "APPE", "f", data=[3]),
+        "mlst": [["send", s, "MLST f"]],
+    }
+    probes = ["CWD f/x", "MLST f/x", "DELE f/x", "MKD f/x", "RMD f/x", "RNFR f/x", "MLST f/x/y", "CWD f/..", "MLST f/../f"]
+    for tname, t in touches.items():
+        for p in probes:
+            out.append(login + t + [["send", s, p], ["send", s, p], ["send", s, "MLST f"]])
+        for verb in ("RETR f/x", "STOR f/x", "LIST f/x", "MLSD f", "LIST f"):
+            v, a = verb.split(" ")
+            out.append(login + t + gen.transfer(s, v, a, data=[7] if v == "STOR" else None) + [["send", s, "MLST f"]])
+        out.append(login + t + [["send", s, "RNFR f"], ["send", s, "RNTO f/x"], ["send", s, "RNFR d"], ["send", s, "RNTO f/x"], ["send", s, "MLST f"]])
+    return out
+
+
 def transcript(result):
     rep, data = [], []
     for e in result["trace"]:
@@ -234,6 +261,7 @@ def transcript(result):
 def ftp_level(chk, tier, rng):
     n = 100 if tier == "quick" else 2500
     scheds = [rename_session(rng) for _ in range(n)] + [gen.rand_session(rng, 1, steps=rng.choice([6, 10])) for _ in range(n)]
+    scheds += through_file_sessions()
     # two sessions with handles on the same file at the same time (a transfer held in its j-th read / write while the other
     # session stats, lists or downloads that file)
     obs = gen.observer_family()
